@@ -59,6 +59,11 @@ pub struct Ctx {
 impl Ctx {
     /// Parses `--tier`, `--seed`, `--evidence`, `--replay` and arbitrary `--key value` pairs.
     pub fn from_args(property: &str) -> Ctx {
+        // Checks run units in parallel on the global rayon pool while the library itself uses rayon
+        // inside each unit: a worker waiting in a nested join steals further units, so stacks grow
+        // with the nesting. Give the workers a deep stack (address space only) instead of the 2 MiB
+        // default; an overflow there is a harness failure, not a property verdict.
+        let _ = rayon::ThreadPoolBuilder::new().stack_size(512 << 20).build_global();
         let args: Vec<String> = std::env::args().skip(1).collect();
         let mut tier = match std::env::var("VERIF_TIER").ok().as_deref() {
             Some("thorough") => Tier::Thorough,
@@ -595,6 +600,7 @@ pub fn hx(bytes: &[u8]) -> String {
 pub fn with_pool<T: Send>(threads: usize, f: impl FnOnce() -> T + Send) -> T {
     rayon::ThreadPoolBuilder::new()
         .num_threads(threads)
+        .stack_size(256 << 20)
         .build()
         .expect("rayon pool")
         .install(f)
